@@ -318,6 +318,12 @@ def main():
     trusted = set()
     samples = []
     solver_s = 0.0
+    try:      # per-obligation log of this run (status, seconds, deciding phase): used to spot slow / unstable obligations
+        with open(os.path.join(ROOT, "out", prop, "obligations_%s.json" % tier), "w") as f_:
+            json.dump([{"function": r["key"], "wall_s": r.get("wall_s"), "obligations": [
+                {k: o.get(k) for k in ("name", "occ", "status", "time_s", "reason", "line")} for o in r.get("obligations", [])]} for r in results], f_, indent=0)
+    except Exception:
+        pass
     for r in results:
         if r["error"]:
             engine_errors.append("%s: %s" % (r["key"], r["error"]))
